@@ -572,12 +572,17 @@ class CheckedCoverageInstrumentation(python3_11.CheckedCoverageInstrumentation):
                     )
                 )
             case "BINARY_SLICE":
-                # Instrumentation mostly after the original instruction
+                # Instrumentation mostly after the original instruction. The result of the
+                # slicing lies on top of the copied container, which is thus the second value.
                 node.basic_block[node.override(instr_index)] = (
                     self.instructions_generator.generate_overriding_instructions(
                         InstrumentationSetupAction.COPY_THIRD_SHIFT_DOWN_THREE,
                         instr,
-                        method_call,
+                        InstrumentationMethodCall(
+                            method_call.self,
+                            method_call.method_name,
+                            (*method_call.args[:-1], InstrumentationStackValue.SECOND),
+                        ),
                         instr.lineno,
                     )
                 )
